@@ -54,6 +54,7 @@ func rushRun(e *sgEnv, r *kc.Rng, n, adv int, commitKind string, falseAnd bool) 
 		pub["Y"], pub["B2"] = Y, B2
 	}
 	mixStar := r.Bytes(dnKeySize)
+	replKey := r.Bytes(dnKeySize) // "replace-own": the key the honest node is told it committed to
 	cStar := s.Scalar()
 	if err := s.Read(s.XOF(mixStar), cStar); err != nil {
 		return nil, "cannot derive challenge: " + err.Error()
@@ -77,6 +78,11 @@ func rushRun(e *sgEnv, r *kc.Rng, n, adv int, commitKind string, falseAnd bool) 
 		s.XOF(r.Bytes(dnKeySize)).Read(com)
 	case "random-commit":
 		com = r.Bytes(dnKeySize)
+	case "replace-own":
+		// (two participants) the leader colludes: the honest node is shown its OWN commitment and key replaced
+		// by values of the adversary's choice (commitment and key consistent with each other), so that the mix
+		// is known beforehand; the adversary itself commits and reveals honestly
+		s.XOF(advKeyFor(mixStar, replKey)).Read(com)
 	case "own-key-only":
 		// no rushing: the participant commits to mix* and reveals mix*; its simulated proof is for the
 		// challenge derived from its own key alone, i.e. it bets that the honest keys are not mixed in
@@ -136,12 +142,29 @@ func rushRun(e *sgEnv, r *kc.Rng, n, adv int, commitKind string, falseAnd bool) 
 		switch step {
 		case 0:
 			msgs[adv] = append(append([]byte{}, com...), m0...)
+			if commitKind == "replace-own" {
+				for i := range msgs {
+					if i != adv && len(msgs[i]) >= dnKeySize {
+						fake := make([]byte, dnKeySize)
+						s.XOF(replKey).Read(fake)
+						msgs[i] = append(fake, msgs[i][dnKeySize:]...)
+					}
+				}
+			}
 		case 1:
 			key := append([]byte{}, mixStar...)
 			for i, m := range msgs {
-				if i != adv && len(m) >= dnKeySize && commitKind != "own-key-only" {
+				if i != adv && len(m) >= dnKeySize && commitKind != "own-key-only" && commitKind != "replace-own" {
 					for j := 0; j < dnKeySize; j++ {
 						key[j] ^= m[j]
+					}
+				}
+			}
+			if commitKind == "replace-own" {
+				key = advKeyFor(mixStar, replKey)
+				for i := range msgs {
+					if i != adv && msgs[i] != nil {
+						msgs[i] = append([]byte{}, replKey...)
 					}
 				}
 			}
@@ -181,6 +204,14 @@ func rushRun(e *sgEnv, r *kc.Rng, n, adv int, commitKind string, falseAnd bool) 
 	return accepted, ""
 }
 
+func advKeyFor(mixStar, replKey []byte) []byte {
+	k := make([]byte, len(mixStar))
+	for i := range k {
+		k[i] = mixStar[i] ^ replKey[i]
+	}
+	return k
+}
+
 func c14Rushing(t *sgRun, envs []*sgEnv) {
 	c := t.c
 	reps := c.N(3, 20)
@@ -198,10 +229,10 @@ func c14Rushing(t *sgRun, envs []*sgEnv) {
 	for _, e := range envs {
 		r := c.Rng.Fork("rushing/" + e.name)
 		for k := 0; k < reps; k++ {
-			for ci, ck := range []string{"junk-commit", "commit-to-other-key", "random-commit", "own-key-only"} {
+			for ci, ck := range []string{"junk-commit", "commit-to-other-key", "random-commit", "own-key-only", "replace-own"} {
 				n := 2 + (k+ci)%3
 				adv := r.Intn(n)
-				if ck == "own-key-only" {
+				if ck == "own-key-only" || ck == "replace-own" {
 					// one honest participant, at either index
 					n, adv = 2, k%2
 				}
